@@ -31,6 +31,10 @@ pub struct Case {
     /// (zero, a zero half, all ones, a single bit) cannot be reached by timer scripts alone
     #[serde(default)]
     pub first_result: Option<u64>,
+    /// if set: the pool is preset such that the first collection returns (start pool ^ this):
+    /// 0 = the collection maps the pool onto itself (a fixed point)
+    #[serde(default)]
+    pub first_relation: Option<u64>,
 }
 
 pub const BUDGET: usize = 3_000_000;
@@ -60,6 +64,16 @@ pub fn check(c: &Case) -> CheckResult {
             if g.jitter().unwrap().set_pool(p0) {
                 m.pool = p0;
                 targeted = true;
+            }
+        }
+    }
+    let mut relation_targeted = false;
+    if let (None, Some(rel)) = (c.first_result, c.first_relation) {
+        if let Some(p0) = crate::refmodel::jitter::pool_for_relation(&m.script, 0, m.rounds, rel, BUDGET) {
+            if g.jitter().unwrap().set_pool(p0) {
+                m.pool = p0;
+                targeted = true;
+                relation_targeted = true;
             }
         }
     }
@@ -153,6 +167,8 @@ pub fn check(c: &Case) -> CheckResult {
     }
     Ok(CaseInfo::new(!c.ops.is_empty() && (m.stuck_seen > 0 || stats_between_u32 || rounds_not_64 || targeted))
         .class_if(targeted, "first-result-targeted")
+        .class_if(relation_targeted, "first-result-related-to-start-pool")
+        .class_if(c.first_relation.is_some() && c.first_result.is_none() && !relation_targeted, "relation-unsolvable")
         .class_if(m.stuck_seen > 0, "stuck-measurement-repeated")
         .class_if(stats_between_u32, "timer_stats-between-u32")
         .class_if(c.prog.hostile(), "hostile-deltas")
@@ -181,14 +197,16 @@ pub fn structured_value() -> BoxedStrategy<u64> {
 
 pub fn strategy(max_ops: usize) -> BoxedStrategy<Case> {
     let ops = proptest::collection::vec(prop_oneof![30 => jop(40), 1 => Just(JOp::TestTimer), 2 => Just(JOp::Clone)], 0..=max_ops);
-    (gens::timer_prog(true, 14), proptest::option::weighted(0.85, gens::jitter_rounds()), ops, proptest::option::weighted(0.25, structured_value()))
-        .prop_map(|(prog, rounds0, mut ops, first_result)| {
-            if first_result.is_some() {
+    let relation = prop_oneof![4 => Just(0u64), 1 => Just(u64::MAX), 1 => (0u32..64).prop_map(|k| 1u64 << k)];
+    (gens::timer_prog(true, 14), proptest::option::weighted(0.85, gens::jitter_rounds()), ops, proptest::option::weighted(0.25, structured_value()), proptest::option::weighted(0.1, relation))
+        .prop_map(|(prog, rounds0, mut ops, first_result, first_relation)| {
+            let first_relation = if first_result.is_some() { None } else { first_relation };
+            if first_result.is_some() || first_relation.is_some() {
                 // the targeted collection is the first operation: start with output calls
                 ops.insert(0, JOp::U32);
                 ops.insert(1, JOp::U32);
             }
-            Case { prog, rounds0, ops, first_result }
+            Case { prog, rounds0, ops, first_result, first_relation }
         })
         .boxed()
 }
@@ -247,6 +265,23 @@ pub fn def(ctx: &Ctx) -> PropDef {
     for part in 0..16 {
         subs.push(PSub::boxed(format!("history/{}", part), t.pick(1500, 150_000), move || strategy(max_ops), check));
     }
+    // very long stuck runs (retry counters of any width up to 2^16 wrap), then recovery
+    subs.push(PSub::boxed(
+        "long-stuck",
+        t.pick(3, 12),
+        || {
+            (1u64..=1_000_000, prop_oneof![Just(300usize), Just(800usize), Just(70_000usize)], 1u8..=3, any::<u64>(), any::<bool>())
+                .prop_map(|(start, stuck, rounds, salt, zero)| Case {
+                    prog: TimerProg { start, segs: vec![gens::Seg::Jitter { n: 9, lo: 50, spread: 40 }, if zero { gens::Seg::Zero { n: 3 * stuck } } else { gens::Seg::Equal { n: 3 * stuck, d: 7 } }], salt },
+                    rounds0: Some(rounds),
+                    ops: vec![JOp::U64, JOp::U32, JOp::U64],
+                    first_result: None,
+                    first_relation: None,
+                })
+                .boxed()
+        },
+        check,
+    ));
     subs.push(PSub::boxed("timer-stats-pairs", t.pick(20_000, 2_000_000), stats_strategy, check_stats));
     if ctx.tier == crate::engine::Tier::Thorough {
         subs.push(crate::props::fuzzsub::FuzzSub::boxed("fz_jitter", "C12", 150000, false));
